@@ -160,6 +160,11 @@ def theorem_family(ew, enc, names):
     if mems and (len(mems) > 1 or af is None):
         return None
     bc = mems[0].split(":")[9] != "0" if mems else False
+    # --- alternative encodings selected by mod_mr() / mod_rm()
+    if enc in (0x85, 0x88) and mode == 64 and optl == ["modmr"] and k == "-" and sig == "RRR" and inn("xrvm"):
+        return "xop_rvm_modmr"
+    if enc in (0x19, 0x2C) and mode == 64 and optl == ["modrm"] and k == "-" and sig == "RR" and regs[0] == regs[1] and regs[0] in ("gpw", "gpd", "gpq"):
+        return "rr_modrm"
     # --- VEX / EVEX classes
     if enc in VEX_SHAPE or enc in (0x83, 0x84):
         sh = VEX_SHAPE[enc] if enc in VEX_SHAPE else ("mr" if sig == "MR" else "rm")      # VexRmMr: loads in `rm`, stores in `mr`
